@@ -297,6 +297,55 @@ pub fn sites(tier: Tier) -> Vec<Site> {
                 }
             }));
     }
+    // where the reader and the writer stand: the file behind 0..=7 other bytes in the stream, written behind
+    // 0..=5 bytes already in the output - same structure, same bytes (padding and alignment are relative
+    // to the file, not to the stream)
+    {
+        let files = files.clone();
+        let small: Vec<usize> = files.iter().enumerate().filter(|(_, f)| f.bytes.len() <= 20_000).map(|(i, _)| i).collect();
+        let woffs: [usize; 5] = [0, 1, 2, 3, 5];
+        let per = 8 * woffs.len() as u64;
+        let n = small.len() as u64 * per;
+        sites.push(Site::new("stream-position", n,
+            "every generated file and the shipped PTH file read at stream offset 0..=7 and written at output offset {0,1,2,3,5}: same structure, same bytes as at offset 0",
+            move |i, acc| {
+                use std::io::{Seek, SeekFrom, Write};
+                mark(5, i);
+                acc.eval();
+                let f = &files[small[(i / per) as usize]];
+                let r = ((i % per) / woffs.len() as u64) as usize;
+                let w = woffs[(i % woffs.len() as u64) as usize];
+                let kind = if f.smx { "SMX" } else { "PTH" };
+                let replay = json!({"site": "stream-position", "index": i, "file": f.name, "read_offset": r, "write_offset": w});
+                let plain = parse_and_write(f.smx, &f.bytes);
+                let shifted = guard(|| -> Result<(String, Vec<u8>), String> {
+                    let mut data = vec![0xa5u8; r];
+                    data.extend_from_slice(&f.bytes);
+                    let mut c = Cursor::new(&data[..]);
+                    let _ = c.seek(SeekFrom::Start(r as u64));
+                    let mut out = Cursor::new(Vec::new());
+                    let _ = out.write_all(&vec![0x5au8; w]);
+                    let dbg = if f.smx {
+                        let v = Smx::read(&mut c).map_err(|e| e.to_string().chars().take(100).collect::<String>())?;
+                        v.write(&mut out).map_err(|e| format!("write failed: {e}"))?;
+                        format!("{v:?}")
+                    } else {
+                        let v = Pth::read(&mut c).map_err(|e| e.to_string().chars().take(100).collect::<String>())?;
+                        v.write(&mut out).map_err(|e| format!("write failed: {e}"))?;
+                        format!("{v:?}")
+                    };
+                    Ok((dbg, out.into_inner()[w..].to_vec()))
+                });
+                match shifted {
+                    Err(p) => acc.violate(i, format!("C17|{kind}|stream-position|panic"), format!("{}: {p}", f.name), replay),
+                    Ok(s) if s == plain => { acc.class("position-independent"); acc.nontrivial(); },
+                    Ok(s) => acc.violate(i, format!("C17|{kind}|stream-position|differs-from-offset-0"),
+                        format!("{} read at offset {r}, written at offset {w}: {} ; at offset 0: {}", f.name,
+                            match &s { Ok((d, b)) => format!("{} bytes, {}", b.len(), d.chars().take(60).collect::<String>()), Err(e) => e.clone() },
+                            match &plain { Ok((d, b)) => format!("{} bytes, {}", b.len(), d.chars().take(60).collect::<String>()), Err(e) => e.clone() }), replay),
+                }
+            }));
+    }
     // every truncation point
     {
         let mut cases: Vec<(usize, usize)> = vec![];
@@ -571,7 +620,7 @@ pub fn run(tier: Tier, replay: Option<String>) -> i32 {
         Some(c @ (0 | 1)) => c,
         other => {
             // the sweep died: find the case(s) in flight and re-run each in its own process
-            let names = ["round-trip", "truncation", "substitution", "count-sweep", "short-reads"];
+            let names = ["round-trip", "truncation", "substitution", "count-sweep", "short-reads", "stream-position"];
             let raw = std::fs::read(&slots).unwrap_or_default();
             let mut pinned = 0;
             let mut tried = 0u64;
